@@ -161,6 +161,46 @@ def correspondence(ctx: Ctx):
                "nontrivial": odd, "bucket": "ccc/" + ("odd" if odd else "even")}
 
 
+    # ---- complex_random_crop: the drawn corner is reproduced from the seed (global numpy stream seeded by the code)
+    for _ in range(ctx.budget(80, 1200)):
+        rank = rng.choice([3, 4, 5])
+        offset = rng.choice([0, 1])
+        ncrop = rng.choice([2, 3]) if rank - offset >= 4 else 2
+        shape = [rng.choice(sizes[:6]) for _ in range(rank - 1)] + [2]
+        x = _arange(shape)
+        crop = []
+        for j in range(ncrop):
+            n = shape[offset + j]
+            r = rng.random()
+            crop.append(0 if r < 0.1 else n + 1 if r < 0.12 else rng.randint(1, n))
+        seed = rng.randrange(2 ** 31)
+        sampler = rng.choice(["uniform", "uniform", "gaussian"])
+        eff = [c if c else shape[offset + j] for j, c in enumerate(crop)]
+        limits = [shape[offset + j] - e for j, e in enumerate(eff)]
+        lower = [0] * ncrop
+        if all(l >= 0 for l in limits):
+            rs = np.random.RandomState(seed)
+            if sampler == "uniform":
+                lower = rs.randint(0, np.asarray(limits) + 1).tolist()
+            else:
+                ds = np.asarray(shape[offset:offset + ncrop])
+                lp = (rs.normal(loc=ds / 2, scale=ds / 6, size=len(ds)) - np.asarray(eff) / 2).astype(int)
+                lower = np.clip(lp, 0, limits).tolist()
+        sh, d = tensor_groups(x)
+        st = np.random.get_state()
+
+        def impl(x=x, c=tuple(crop), o=offset, sm=sampler, sd=seed):
+            try:
+                return ok_tensor(T.complex_random_crop(x, c, offset=o, sampler=sm, seed=sd))
+            except (ValueError, TypeError, IndexError, RuntimeError, AssertionError) as e:
+                n = err_name(e)
+                return "err " + ("ShapeError" if n == "RuntimeError" else n)
+            finally:
+                np.random.set_state(st)
+        yield {"line": line("rcrop", sh, d, crop, [offset], lower), "impl": impl,
+               "nontrivial": any(l > 0 for l in limits), "bucket": f"random_crop/{sampler}"}
+
+
 # --------------------------------------------------------------------------------------------------
 def _bbox_ref(x: np.ndarray, bbox, fill):
     nd = len(bbox) // 2
